@@ -1,6 +1,7 @@
 import PoorModel.Route
 import PoorModel.Gen.Patterns
 import PoorProofs.Lemmas.Regex
+import PoorProofs.Props.C19
 /-
 C02 - requests reach exactly the endpoint the routing rules select
 (and the dispatcher gate of C20).
@@ -147,5 +148,98 @@ theorem C20_route (r : Reg) (env : Env) (bit : Nat) (path : Str) (hd : env.debug
       cases h
     · repeat' split at h
       all_goals first | cases h | exact selectDefault_ne_debug r bit h
+
+/-! ### registration sequences: order and latest-wins -/
+section Registrations
+open Poor.Props.C19
+
+/-- one registration of a pattern route (what `set_regular_route` / `set_route` with groups stores) -/
+structure Registration where
+  pat : Str
+  fn : Nat
+  mask : Nat
+  convs : List (Str × Conv)
+  rule : Option Str
+
+def register (r : Reg) (g : Registration) : Reg := setRegular r g.pat g.fn g.mask g.convs g.rule
+
+/-- a sequence of registrations -/
+def regAll (r : Reg) (gs : List Registration) : Reg := gs.foldl register r
+
+/-- patterns in the order of their first registration -/
+def firstOcc (acc : List Str) (ks : List Str) : List Str :=
+  ks.foldl (fun a k => if k ∈ a then a else a ++ [k]) acc
+
+/-- **re-registration keeps the place**: registering a pattern that is already in the table (for
+    further methods, or again) does not move it -/
+theorem C02_reregister_keeps_place (r : Reg) (g : Registration) (h : g.pat ∈ keys r.rhandlers) :
+    keys (register r g).rhandlers = keys r.rhandlers := by
+  simp only [register, setRegular, fanOut_keys, if_pos h]
+
+/-- a pattern registered for the first time goes to the end -/
+theorem C02_new_pattern_last (r : Reg) (g : Registration) (h : g.pat ∉ keys r.rhandlers) :
+    keys (register r g).rhandlers = keys r.rhandlers ++ [g.pat] := by
+  simp only [register, setRegular, fanOut_keys, if_neg h]
+
+/-- **registration order**: after any sequence of registrations the table lists the patterns in the
+    order of their *first* registration -/
+theorem C02_registration_order (r : Reg) (gs : List Registration) :
+    keys (regAll r gs).rhandlers = firstOcc (keys r.rhandlers) (gs.map (·.pat)) := by
+  induction gs generalizing r with
+  | nil => rfl
+  | cons g t ih =>
+    simp only [regAll, List.foldl_cons, List.map_cons, firstOcc] at ih ⊢
+    rw [ih (register r g)]
+    congr 1
+    simp only [register, setRegular, fanOut_keys]
+
+/-- the handler stored for `(pattern, method)` is the one of the **latest** registration naming both -/
+theorem C02_latest_registration (r : Reg) (gs : List Registration) (g : Registration) (p : Str) (b : Nat) :
+    lookup2 (regAll r (gs ++ [g])).rhandlers p b =
+      if p = g.pat ∧ b ∈ bitsOf g.mask then some ⟨g.fn, g.convs, g.rule⟩
+      else lookup2 (regAll r gs).rhandlers p b := by
+  simp only [regAll, List.foldl_append, List.foldl_cons, List.foldl_nil]
+  generalize gs.foldl register r = r'
+  simp only [register, setRegular]
+  by_cases hp : p = g.pat
+  · subst hp
+    rw [fanOut_spec]
+    by_cases hb : b ∈ bitsOf g.mask <;> simp [hb]
+  · rw [fanOut_other_key _ _ _ _ _ _ hp]
+    simp [hp]
+
+theorem regAll_nodup (r : Reg) (gs : List Registration) (h : (keys r.rhandlers).Nodup) :
+    (keys (regAll r gs).rhandlers).Nodup := by
+  induction gs generalizing r with
+  | nil => exact h
+  | cons g t ih =>
+    simp only [regAll, List.foldl_cons] at ih ⊢
+    exact ih _ (by simp only [register, setRegular]; exact fanOut_nodup _ _ _ _ h)
+
+/-- **selection in terms of registrations**: let the table be the result of any registration sequence
+    on an empty table.  If `pat` is in it, every pattern placed before it (= first registered earlier)
+    does not serve the request, `pat` matches the path and the latest registration of `pat` for the
+    method stored `rh`, then the request is dispatched to `rh.fn`. -/
+theorem C02_select_registered (gs : List Registration) (bit : Nat) (path : Str)
+    (pre post : List (Str × List (Nat × RH))) (pat : Str) (inner : List (Nat × RH))
+    (htab : (regAll {} gs).rhandlers = pre ++ (pat, inner) :: post)
+    (groups : List (Option Str)) (names : List (String × Nat)) (rh : RH)
+    (hpre : ∀ e ∈ pre, Skips bit path e)
+    (hm : matchPat pat path = .ok (some (groups, names)))
+    (hb : lookup2 (regAll {} gs).rhandlers pat bit = some rh) :
+    ∃ args nm, selectRegex bit path (regAll {} gs).rhandlers
+      = .ok (some (.pattern rh.fn args nm (rh.rule.getD pat))) := by
+  have hnd := regAll_nodup {} gs (by simp [keys])
+  rw [htab] at hnd hb ⊢
+  have hnot : pat ∉ keys pre := by
+    intro hm'
+    simp only [keys, List.map_append, List.map_cons] at hnd
+    have := (List.nodup_append.1 hnd).2.2 pat (by simpa [keys] using hm') pat (by simp)
+    exact this rfl
+  rw [lookup2_at pre post pat inner bit hnot] at hb
+  exact selectRegex_first_match bit path pre post pat inner groups names rh hpre hm hb
+
+
+end Registrations
 
 end Poor.Props.C02
